@@ -16,7 +16,7 @@ out = {
         "add_only": True,
     },
     "engines": [
-        {"name": "vcheck", "path": "harness/cmd/vcheck", "serves_properties": [c for c in ids if c in checks],
+        {"name": "vcheck", "path": "harness/cmd/vcheck", "serves_properties": [c for c in ids if checks.get(c, {}).get("ready")],
          "kind_free_text": "Go harness: monitored runtime.Interface host, generators, reference models and oracles; parent process shards a fixed seeded case list over worker processes"},
     ],
     "checks": [],
@@ -25,7 +25,7 @@ out = {
 }
 for pid in ids:
     c = checks.get(pid)
-    if c is None:
+    if c is None or not c.get("ready", False):
         out["not_applicable"].append({"property_id": pid, "reason": checks.get("_na", {}).get(pid, "no check built yet in this tree; design in DESIGN.md section 4 (" + pid + ")")})
         continue
     out["checks"].append({
